@@ -1,12 +1,348 @@
-/- C02 model — placeholder until the property is built -/
-import Klong.Model.Wire
+/-
+  C02 — adverbs.  `ref*` = the manual's definitional expansion written as plain applications
+  of the verb; `impl*` = klongpy/adverbs.py (list comprehensions, functools.reduce,
+  itertools.accumulate, the operator shortcuts selected by `op`), both over an arbitrary
+  monad `m` so that the verb may have effects (logging Python callables, failing verbs):
+  equality of the monadic programs means same calls, same order, same result.
+-/
+import Klong.Model.C01
 namespace Klong.C02
+open Klong Klong.C01
+
+section generic
+variable {m : Type → Type} [Monad m]
+
+abbrev V1 (m : Type → Type) := Val → m Val
+abbrev V2 (m : Type → Type) := Val → Val → m Val
+
+/-- the elements an adverb iterates over: list members, or the characters of a string -/
+def elems : Val → Option (List Val)
+  | .list xs => some xs
+  | .str cs => some (cs.map .chr)
+  | _ => none
+
+/-! ### reference (manual text) -/
+
+/-- f(...f(f(acc;x1);x2)...;xN) -/
+def refFold (f : V2 m) (acc : Val) : List Val → m Val
+  | [] => pure acc
+  | x :: xs => do let r ← f acc x; refFold f r xs
+
+/-- the prefixes of that fold, starting with `acc` itself -/
+def refScan (f : V2 m) (acc : Val) : List Val → m (List Val)
+  | [] => pure [acc]
+  | x :: xs => do let r ← f acc x; let rs ← refScan f r xs; pure (acc :: rs)
+
+/-- f(a1),...,f(aN) -/
+def refMap (f : V1 m) : List Val → m (List Val)
+  | [] => pure []
+  | x :: xs => do let r ← f x; let rs ← refMap f xs; pure (r :: rs)
+
+/-- f(a1;b1),...,f(aN;bN) -/
+def refZipWith (f : V2 m) : List Val → List Val → m (List Val)
+  | x :: xs, y :: ys => do let r ← f x y; let rs ← refZipWith f xs ys; pure (r :: rs)
+  | _, _ => pure []
+
+/-- f/a : Over -/
+def refOver (f : V2 m) (a : Val) : m Val :=
+  match elems a with
+  | some (x :: xs) => refFold f x xs
+  | _ => pure a
+
+/-- a f/b : Over-Neutral -/
+def refOverNeutral (f : V2 m) (a b : Val) : m Val :=
+  match elems b with
+  | some xs => refFold f a xs
+  | none => f a b
+
+/-- f\a : Scan-Over -/
+def refScanOver (f : V2 m) (a : Val) : m Val :=
+  match elems a with
+  | some (x :: xs) => do let r ← refScan f x xs; pure (.list r)
+  | _ => pure a
+
+/-- a f\b : Scan-Over-Neutral -/
+def refScanOverNeutral (f : V2 m) (a b : Val) : m Val :=
+  match elems b with
+  | some [] => pure a
+  | some xs => do let r ← refScan f a xs; pure (.list r)
+  | none => do let r ← f a b; pure (.list [a, r])
+
+/-- f'a : Each -/
+def refEach (f : V1 m) (a : Val) : m Val :=
+  match a with
+  | .list [] => pure a
+  | .list xs => do let r ← refMap f xs; pure (.list r)
+  | a => f a
+
+/-- a f:\b : Each-Left — f(a;b1),...,f(a;bN) -/
+def refEachLeft (f : V2 m) (a b : Val) : m Val :=
+  match elems b with
+  | some xs => do let r ← refMap (fun x => f a x) xs; pure (.list r)
+  | none => f a b
+
+/-- a f:/b : Each-Right — f(b1;a),...,f(bN;a) -/
+def refEachRight (f : V2 m) (a b : Val) : m Val :=
+  match elems b with
+  | some xs => do let r ← refMap (fun x => f x a) xs; pure (.list r)
+  | none => f b a
+
+/-- f:'a : Each-Pair — f(a1;a2),f(a2;a3),... -/
+def refEachPair (f : V2 m) (a : Val) : m Val :=
+  match elems a with
+  | some (x :: y :: r) => do let rs ← refZipWith f (x :: y :: r) (y :: r); pure (.list rs)
+  | _ => pure a
+
+/-- a f:*b : Iterate — f applied a times to b -/
+def refIterate (f : V1 m) : Nat → Val → m Val
+  | 0, b => pure b
+  | n + 1, b => do let r ← f b; refIterate f n r
+
+/-- a f\*b : Scan-Iterating — b, f(b), f(f(b)), ... (a+1 values) -/
+def refScanIter (f : V1 m) : Nat → Val → m (List Val)
+  | 0, b => pure [b]
+  | n + 1, b => do let r ← f b; let rs ← refScanIter f n r; pure (b :: rs)
+
+/-! ### implementation (adverbs.py) -/
+
+/-- `functools.reduce(f, xs, acc)` -/
+def pyReduce (f : V2 m) (acc : Val) (xs : List Val) : m Val := xs.foldlM f acc
+
+/-- `[f(x) for x in xs]` -/
+def pyComp (f : V1 m) (xs : List Val) : m (List Val) := xs.mapM f
+
+/-- `list(itertools.accumulate(xs, f))` for non-empty xs -/
+def pyAccumulate (f : V2 m) : Val → List Val → List Val → m (List Val)
+  | acc, [], out => pure (out.reverse ++ [acc])
+  | acc, x :: xs, out => do let r ← f acc x; pyAccumulate f r xs (acc :: out)
+
+/-- `eval_adverb_over(f, a, op)`; `short` is the operator shortcut chosen by `op`
+    (`none`: no shortcut applies), which bypasses `f` altogether -/
+def implOver (f : V2 m) (short : Option (List Val → m Val)) (a : Val) : m Val :=
+  match elems a with
+  | some [x] => pure x
+  | some (x :: xs) =>
+    match short with
+    | some s => s (x :: xs)
+    | none => pyReduce f x xs
+  | _ => pure a
+
+/-- `eval_adverb_over_neutral`: `reduce(f, b[1:], f(a, b[0]))` -/
+def implOverNeutral (f : V2 m) (a b : Val) : m Val :=
+  match elems b with
+  | some [] => pure a
+  | some (x :: xs) => do let r ← f a x; pyReduce f r xs
+  | none => f a b
+
+/-- `eval_adverb_scan_over` -/
+def implScanOver (f : V2 m) (short : Option (List Val → m Val)) (a : Val) : m Val :=
+  match elems a with
+  | some (x :: xs) =>
+    match short with
+    | some s => s (x :: xs)
+    | none => do let r ← pyAccumulate f x xs []; pure (.list r)
+  | _ => pure a
+
+/-- `eval_adverb_scan_over_neutral`: `b = [f(a,b0), *b[1:]]; [a, *accumulate(b, f)]` -/
+def implScanOverNeutral (f : V2 m) (a b : Val) : m Val :=
+  match elems b with
+  | some [] => pure a
+  | some (x :: xs) => do
+    let r0 ← f a x
+    let r ← pyAccumulate f r0 xs []
+    pure (.list (a :: r))
+  | none => do let r0 ← f a b; pure (.list [a, r0])
+
+def implEach (f : V1 m) (a : Val) : m Val :=
+  match a with
+  | .list [] => pure a
+  | .list xs => do let r ← pyComp f xs; pure (.list r)
+  | a => f a
+
+def implEachLeft (f : V2 m) (a b : Val) : m Val :=
+  match elems b with
+  | some xs => do let r ← pyComp (fun x => f a x) xs; pure (.list r)
+  | none => f a b
+
+def implEachRight (f : V2 m) (a b : Val) : m Val :=
+  match elems b with
+  | some xs => do let r ← pyComp (fun x => f x a) xs; pure (.list r)
+  | none => f b a
+
+/-- `[f(x, y) for x, y in zip(a[:], a[1:])]` -/
+def pyZipComp (f : V2 m) : List Val → List Val → m (List Val)
+  | x :: xs, y :: ys => do let r ← f x y; let rs ← pyZipComp f xs ys; pure (r :: rs)
+  | _, _ => pure []
+
+def implEachPair (f : V2 m) (a : Val) : m Val :=
+  match elems a with
+  | some [] => pure a
+  | some [_] => pure a
+  | some xs => do let r ← pyZipComp f xs (xs.drop 1); pure (.list r)
+  | none => pure a
+
+/-- `while not a == 0: b = f(b); a = a - 1` -/
+def implIterate (f : V1 m) : Nat → Val → m Val
+  | 0, b => pure b
+  | n + 1, b => do let r ← f b; implIterate f n r
+
+def implScanIterAux (f : V1 m) : Nat → Val → List Val → m (List Val)
+  | 0, _, out => pure out.reverse
+  | n + 1, b, out => do let r ← f b; implScanIterAux f n r (r :: out)
+
+/-- `eval_adverb_scan_iterating` (a > 0): r = [b]; loop: b = f(b); r.append(b) -/
+def implScanIter (f : V1 m) (n : Nat) (b : Val) : m (List Val) := implScanIterAux f n b [b]
+
+end generic
+
+/-! ### the operator shortcuts of `eval_adverb_over` / `eval_adverb_scan_over`
+
+`np.add.reduce(a)` etc. over axis 0: numpy defines `ufunc.reduce` as the left fold of the
+ufunc over the first axis; the ufunc on two rows is the atomic dyad of C01.  `np.min`/`np.max`
+are only used for rank 1. -/
+
+def liftOpt : Option Val → Option Val := id
+
+def ufuncReduce (op : AOp) : List Val → Option Val
+  | [] => none
+  | x :: xs => xs.foldlM (fun acc y => implA2 (scalar2 op) acc y) x
+
+def ufuncAccumulate (op : AOp) : List Val → Option Val
+  | [] => none
+  | x :: xs => (go x xs).map (fun r => .list (x :: r))
+where
+  go (acc : Val) : List Val → Option (List Val)
+    | [] => some []
+    | y :: ys => do
+      let r ← implA2 (scalar2 op) acc y
+      let rs ← go r ys
+      pure (r :: rs)
+
+/-- which operator verbs take a shortcut in Over, and on which operands -/
+def overShortcut (opch : String) (xs : List Val) : Option (List Val → Option Val) :=
+  match opch with
+  | "+" => some (ufuncReduce .add)
+  | "-" => some (ufuncReduce .sub)
+  | "*" => some (ufuncReduce .mul)
+  | "&" => if (asNums xs).isSome then some (ufuncReduce .min) else none
+  | "|" => if (asNums xs).isSome then some (ufuncReduce .max) else none
+  | _ => none
+
+def scanShortcut (opch : String) : Option (List Val → Option Val) :=
+  match opch with
+  | "+" => some (ufuncAccumulate .add)
+  | "-" => some (ufuncAccumulate .sub)
+  | "*" => some (ufuncAccumulate .mul)
+  | _ => none
+
+/-! ### concrete verbs and the logging monad of the driver -/
+
+/-- Join, for the verbs of the closed set -/
+def refJoin : Val → Val → Option Val
+  | .list xs, .list ys => some (.list (xs ++ ys))
+  | .list xs, b => some (.list (xs ++ [b]))
+  | a, .list ys => some (.list (a :: ys))
+  | .str a, .str b => some (.str (a ++ b))
+  | .str a, .chr c => some (.str (a ++ [c]))
+  | .chr c, .str b => some (.str (c :: b))
+  | .chr a, .chr b => some (.str [a, b])
+  | a, b => some (.list [a, b])
+
+def dyadVerb (name : String) (a b : Val) : Option Val :=
+  match name with
+  | "," => refJoin a b
+  | "{x-y}" => refDyad "-" a b
+  | "{y-x}" => refDyad "-" b a
+  | "{(2*x)+y}" => (refDyad "*" (.int 2) a).bind fun t => refDyad "+" t b
+  | "{x,y}" => refJoin a b
+  | "{x,,y}" => refJoin a (.list [b])
+  | op => refDyad op a b
+
+def monadVerb (name : String) (a : Val) : Option Val :=
+  match name with
+  | "{x+1}" => refDyad "+" a (.int 1)
+  | "{-x}" => refMonad "-" a
+  | "{x,x}" => refJoin a a
+  | "{#x}" => refMonad "#" a
+  | "{,x}" => some (.list [a])
+  | "{x}" => some a
+  | _ => none
+
+/-- logging monad: state = the verb's calls so far, failure = the verb raised -/
+abbrev LogM := StateT (List (List Val)) Option
+
+def logged2 (name : String) : V2 LogM := fun a b => do
+  modify (· ++ [[a, b]])
+  match dyadVerb name a b with
+  | some v => pure v
+  | none => failure
+
+def logged1 (name : String) : V1 LogM := fun a => do
+  modify (· ++ [[a]])
+  match monadVerb name a with
+  | some v => pure v
+  | none => failure
+
+def liftShort (s : List Val → Option Val) : List Val → LogM Val := fun xs =>
+  match s xs with
+  | some v => pure v
+  | none => failure
+
+/-! ### driver -/
+
+def showLog (l : List (List Val)) : String :=
+  "|".intercalate (l.map fun args => ",".intercalate (args.map Val.toWire))
+
+def showRun (r : Option (Val × List (List Val))) : String :=
+  match r with
+  | some (v, log) => s!"ok:{v.toWire} log={showLog log}"
+  | none => "err log="
+
+def natOf : Val → Option Nat
+  | .int n => if n < 0 then none else some n.toNat
+  | _ => none
+
+/-- run adverb `adv` with verb `verb` (shortcuts keyed by `op`, "" = none) -/
+def runAdverb (impl : Bool) (adv verb op : String) (args : List Val) : String :=
+  let f2 := logged2 verb
+  let f1 := logged1 verb
+  let r : Option (Option (Val × List (List Val))) :=
+    match adv, args with
+    | "/", [a] =>
+      let short := if impl then ((elems a).bind (overShortcut op)).map liftShort else none
+      some (((if impl then implOver f2 short a else refOver f2 a)).run [])
+    | "/", [a, b] => some ((if impl then implOverNeutral f2 a b else refOverNeutral f2 a b).run [])
+    | "\\", [a] =>
+      let short := if impl then (scanShortcut op).map liftShort else none
+      some ((if impl then implScanOver f2 short a else refScanOver f2 a).run [])
+    | "\\", [a, b] => some ((if impl then implScanOverNeutral f2 a b else refScanOverNeutral f2 a b).run [])
+    | "'", [a] => some ((if impl then implEach f1 a else refEach f1 a).run [])
+    | ":\\", [a, b] => some ((if impl then implEachLeft f2 a b else refEachLeft f2 a b).run [])
+    | ":/", [a, b] => some ((if impl then implEachRight f2 a b else refEachRight f2 a b).run [])
+    | ":'", [a] => some ((if impl then implEachPair f2 a else refEachPair f2 a).run [])
+    | ":*", [a, b] => (natOf a).map fun n => ((if impl then implIterate f1 n b else refIterate f1 n b).run [])
+    | "\\*", [a, b] => (natOf a).map fun n =>
+        ((do let r ← (if impl then implScanIter f1 n b else refScanIter f1 n b)
+             pure (if n = 0 then b else Val.list r) : LogM Val).run [])
+    | _, _ => none
+  match r with
+  | some x => showRun x
+  | none => "unmodelled"
 
 structure State where
   unit : Unit := ()
 
 def init : State := {}
 
-def handle (s : State) (_ws : List String) : State × String := (s, "bad-op")
+/-- request: `adv <adverb> <verb> <op|-> <args…>` -/
+def handle (s : State) (ws : List String) : State × String :=
+  match ws with
+  | "adv" :: adv :: verb :: op :: rest =>
+    match Val.parseMany (Val.tokenize (" ".intercalate rest)) with
+    | some args =>
+      let op := if op == "-none-" then "" else op
+      (s, "ref=" ++ runAdverb false adv verb op args ++ " impl=" ++ runAdverb true adv verb op args)
+    | none => (s, "bad-op")
+  | _ => (s, "bad-op")
 
 end Klong.C02
